@@ -349,6 +349,7 @@ type c15Obs struct {
 	JSON  string // canonical JSON of the value ("" unless mode j)
 	Type  string // Go type of the value
 	Err   string
+	Ast   string // mode "d" only: the syntax tree dump (parsed in the child: a parser that hangs must not hang the harness)
 }
 
 func (o c15Obs) line(mode string) string {
@@ -492,6 +493,9 @@ func c15evalOne(query string, texts []string, mode string) (o c15Obs) {
 			o.Parse = "ok"
 		}
 	}()
+	if mode == "d" {
+		o.Ast = c15parseObs(query)
+	}
 	if o.Parse != "ok" {
 		return
 	}
@@ -667,14 +671,20 @@ func c15runChunk(pool []*c15Doc, jobs []c15Job, res []c15Obs, lo, hi int, perJob
 
 // c15runJobs evaluates all jobs in child processes, in parallel chunks.
 func c15runJobs(pool []*c15Doc, jobs []c15Job, perJob time.Duration) []c15Obs {
+	return c15runJobsMin(pool, jobs, perJob, 200)
+}
+
+// c15runJobsMin: as c15runJobs with a given minimal chunk size (1 = every job may get its own child,
+// for the few jobs that are expected to be able to hang).
+func c15runJobsMin(pool []*c15Doc, jobs []c15Job, perJob time.Duration, minChunk int) []c15Obs {
 	res := make([]c15Obs, len(jobs))
 	nw := runtime.NumCPU()
 	if nw > 12 {
 		nw = 12
 	}
 	chunk := (len(jobs) + nw*4 - 1) / (nw * 4)
-	if chunk < 200 {
-		chunk = 200
+	if chunk < minChunk {
+		chunk = minChunk
 	}
 	var wg sync.WaitGroup
 	sem := make(chan struct{}, nw)
@@ -709,6 +719,9 @@ func c15docsWire(pool []*c15Doc, ids []int) string {
 var c15year = strconv.Itoa(time.Now().Year())
 
 func c15req(pool []*c15Doc, j c15Job) string {
+	if j.Mode == "d" {
+		j.Mode = "c"
+	}
 	return "qeval " + j.Mode + " " + c15year + " " + hexs(j.Query) + " " + c15docsWire(pool, j.Docs)
 }
 
@@ -912,6 +925,31 @@ func c15bigDoc(n int) []*TNode {
 		f = append(f, T("FAM", "", fmt.Sprintf("F%d", i), T("HUSB", fmt.Sprintf("@I%d@", i), ""), T("WIFE", fmt.Sprintf("@I%d@", i%n+1), "")))
 	}
 	return append(f, T("TRLR", "", ""))
+}
+
+// c15deepQueries: queries whose nesting depth is d.
+func c15deepQueries(d int) []string {
+	nest := func(open, close, core string) string {
+		return strings.Repeat(open, d) + core + strings.Repeat(close, d)
+	}
+	mixed := "1"
+	for i := 0; i < d; i++ {
+		if i%2 == 0 {
+			mixed = "First(" + mixed + ")"
+		} else {
+			mixed = "{a: " + mixed + "}"
+		}
+	}
+	return []string{
+		nest("First(", ")", "1"),
+		".Individuals | " + nest("Only(", ")", "1 = 1"),
+		nest("{a: ", "}", "1"),
+		mixed,
+		nest("Combine(", ")", ".Individuals") + " | Length",
+		".Individuals | " + nest("NodesWithTagPath(", ")", `"NAME"`),
+		strings.Repeat("1 = ", d) + "1",
+		".Individuals | " + nest("{n: .Name | ", "}", ".String"),
+	}
 }
 
 var c15relationQueries = []string{".Individuals | .Spouses", ".Individuals | .Families", ".Individuals | .Parents", ".Individuals | .Children", ".Individuals | .SpouseChildren",
@@ -1168,6 +1206,28 @@ func init() {
 			add("random-bytes", c15randBytes(rb), pickDocs(rb))
 		}
 
+		// deeply nested queries (calls inside call arguments, objects inside objects, operator
+		// chains): parsing and evaluation must stay fast at any depth.  They are parsed in the child
+		// only, each in its own child with a short limit (the unchanged tree needs milliseconds).
+		depths := []int{20, 30, 40, 64}
+		if !c.Quick() {
+			depths = []int{8, 12, 16, 20, 24, 30, 40, 64, 100, 200}
+		}
+		var deepJobs []c15Job
+		for _, d := range depths {
+			for _, query := range c15deepQueries(d) {
+				deepJobs = append(deepJobs, c15Job{query, []int{3}, "d"})
+				c.Count("source=deep-nesting")
+			}
+		}
+		deepObs := c15runJobsMin(pool, deepJobs, 6*time.Second, 1)
+		for i, j := range deepJobs {
+			o := deepObs[i]
+			if o.Ast != "" {
+				c.Tie("qparse "+hexs(j.Query), o.Ast)
+			}
+		}
+
 		// syntax correspondence on every distinct query string
 		seen := map[string]bool{}
 		for _, j := range jobs {
@@ -1181,6 +1241,8 @@ func init() {
 
 		t0 := time.Now()
 		obs := c15runJobs(pool, jobs, 20*time.Second)
+		jobs = append(jobs, deepJobs...)
+		obs = append(obs, deepObs...)
 		c.Notes = append(c.Notes, fmt.Sprintf("child-process evaluation of %d jobs: %.1fs", len(jobs), time.Since(t0).Seconds()))
 		for i, j := range jobs {
 			o := obs[i]
@@ -1194,7 +1256,9 @@ func init() {
 			if o.Top == "value" && i%97 == 0 {
 				c.Sample(map[string]string{"query": j.Query, "type": o.Type, "formatters": o.Fmt})
 			}
-			c.Tie(c15req(pool, j), o.line("c"))
+			if !(j.Mode == "d" && (o.Top == "timeout" || o.Top == "fatal")) { // a deep query that does not finish is reported by the oracle below
+				c.Tie(c15req(pool, j), o.line("c"))
+			}
 			// (S) the property itself
 			in := map[string]interface{}{"query": j.Query, "query_hex": hex.EncodeToString([]byte(j.Query)), "documents": c15texts(pool, j.Docs)}
 			if o.Parse != "ok" && o.Parse != "error" {
@@ -1208,10 +1272,18 @@ func init() {
 			case "value", "error":
 			case "fatal", "timeout":
 				key := ""
-				if c15cyclic(j.Query) {
+				what := "evaluation kills the process or does not finish (" + o.Top + ")"
+				if j.Mode == "d" { // never parsed in this process: a hanging parser must not hang the harness
+					what = "parsing or evaluating a deeply nested query does not finish within 6 s (" + o.Top + ")"
+					in["nesting"] = strings.Count(j.Query, "(") + strings.Count(j.Query, "{") + strings.Count(j.Query, " = ")
+					if strings.HasPrefix(j.Query, "Combine(Combine(") && strings.Count(j.Query, "Combine(") >= 20 && o.Top == "timeout" {
+						// narrow matcher: Combine nested at least 20 deep inside first arguments
+						key = "combine-first-argument-twice"
+					}
+				} else if c15cyclic(j.Query) {
 					key = "variable-cycle"
 				}
-				c.Oracle(key, "evaluation kills the process or does not finish ("+o.Top+")", in, o.Top, "value | error")
+				c.Oracle(key, what, in, o.Top, "value | error")
 			default:
 				c.Oracle("", "evaluation panics", in, o.Top+": "+o.Err, "value | error")
 			}
